@@ -51,6 +51,7 @@ package criteria_mixing
 //@   ensures [extended] forall i int :: 0 <= i && i < len(allAlternatives) ==> model.extendedBy((*result)[i], allAlternatives[i], newCriterion.Id) && fresh((*result)[i].Criteria)
 
 //@ func (*CriteriaMixing).Apply
+//@   refines model.Bias.Apply
 //@   property C18 C07
 //@   requires model.coherent(*listener, *current) && model.coherent(*listener, *original) && len(original.Criteria) > 0
 //@   requires forall i int, j int :: 0 <= i && i < j && j < len(current.ConsideredAlternatives) ==> current.ConsideredAlternatives[i].Id != current.ConsideredAlternatives[j].Id
